@@ -44,11 +44,27 @@ Proof.
   cbn [holds]. rewrite K. reflexivity.
 Qed.
 
+Lemma existsb_r_eqb r l : In r l -> existsb (r_eqb r) l = true.
+Proof. intros H. apply existsb_exists. exists r. split; [exact H | apply r_eqb_refl]. Qed.
+
+Lemma holds_yaml table tree w0 ncalls sch post :
+  valid (Yaml table tree w0 ncalls sch post) ->
+  holds (Yaml table tree w0 ncalls sch post) (run_model (Yaml table tree w0 ncalls sch post)) = [].
+Proof.
+  intros [Hlen Hord]. cbn [holds run_model]. rewrite Hord.
+  assert (Hm : y_member (y_specs table tree w0 sch)
+                 (results _ _ _ _ _ (y_run table tree true (y_init w0 ncalls) sch)) = true).
+  { unfold y_member, results. apply forallb_forall. intros rs Hrs. apply in_map_iff in Hrs.
+    destruct Hrs as (t & <- & Ht). apply forallb_forall. intros r Hr. apply existsb_r_eqb.
+    exact (yaml_results_in_specs (y_table table) tree w0 (map (fun n => repeat tt n) ncalls) sch Hlen t Ht r Hr). }
+  rewrite Hm. reflexivity.
+Qed.
+
 Theorem holds_model c : valid c -> holds c (run_model c) = [].
 Proof.
   destruct c; cbn [valid]; intros Hv.
   - apply holds_cache. exact Hv.
   - apply holds_text. exact Hv.
   - apply holds_store. exact Hv.
-  - destruct Hv.
+  - apply holds_yaml. exact Hv.
 Qed.
